@@ -53,12 +53,12 @@ claimed = {
    note="The slash normalisation inside routeBase (strings.Trim + SplitN) is checked by a bounded exhaustive stand-in (all paths over {a,/,.} up to length 7 quick / 9 thorough) and reported as bounded. net/http behaviour (Host header parsing) is an assumed contract.",
    technique=T+" (theory of strings)", design="7 (C16)"),
  "C10": dict(category="proof",
-   text="Memory backend: every bucket/object operation carries frame clauses taken from the statement (operations on (bucket,key) leave hasObj/objAt of every other key and has/at of every other bucket unchanged; listings and reads are unchanged() on the whole store), discharged for all inputs. Bolt backend: the bolt file's top-level buckets are one namespace shared with the bookkeeping bucket '_meta'; the library contracts of Tx.Bucket/CreateBucket/DeleteBucket require a name different from '_meta', bolt.DB.View/Update are modelled as invoking their closure, and every S3-addressed call site in s3bolt discharges that precondition (it did not before fix f4a4952, D12).",
+   text="Memory backend: every bucket/object operation carries frame clauses taken from the statement (operations on (bucket,key) leave hasObj/objAt of every other key and has/at of every other bucket unchanged; listings and reads are unchanged() on the whole store), discharged for all inputs. Bolt backend: the bolt file's top-level buckets are one namespace shared with the bookkeeping bucket '_meta'; the library contracts of Tx.Bucket/CreateBucket/DeleteBucket require a name different from '_meta', bolt.DB.View/Update are modelled as invoking their closure, and every S3-addressed call site in s3bolt discharges that precondition (it did not before fix f4a4952, D12). routeBase keeping dot segments inside the opaque key is checked by a bounded stand-in (all paths over {a,/,.} up to length 7 quick / 9 thorough), labelled bounded.",
    note="Filesystem backends are outside the verified set: confinement of keys with '..' segments (D13 of DESIGN.md, reproduced by hand) depends on path.Join/Clean and afero semantics that no contract here models, so that conjunct is NOT decided. Bolt: only the call-site preconditions are claimed for s3bolt functions; the object invariant str(db.metaBucketName)=='_meta' is assumed at method entry (established by New when no option is passed; the field is checked to be written only in New). routeBase does not clean paths (C16 contracts).",
    technique=T, design="7 (C10), 12"),
  "C01": dict(category="proof",
-   text="Memory backend and root package, all inputs: ReadAll returns exactly the next `size` bytes of the stream (ghost rd_data) or an error; s3mem PutObject stores a body equal byte-for-byte to those bytes, hash = md5.Sum(body) and etag = quote(hex(hash)), metadata = the map passed in; toObject/GetObject hand back a bytes.Reader over the stored body (or the requested sub-range of it: contents clause over the reader's source slice), Size = len(body), Hash and Metadata those of the stored version; createObject passes to PutObject the request's bucket/key, a hashingReader over the request body (directly or through the chunk decoder) and the declared size; metadataHeaders keeps exactly the documented headers; CopyObject reads the source key and writes the destination key; getObject/headObject serve the object read for (bucket, key, version).",
-   note="Not modelled: HTTP response headers (Header.Set has no effect in the model, so 'ETag/Content-Length header equals ...' is not a discharged clause), md5 and hex themselves (uninterpreted but the same symbol on both sides), the browser-form POST path beyond safety, BSON/JSON encodings. Bolt and afero backends are outside the verified set, so 'on every bundled backend' is not decided. A heap array sliced and then written through its own name is not tracked through the slice (DESIGN.md 12.2).",
+   text="Memory backend and root package, all inputs: ReadAll returns exactly the next `size` bytes of the stream (ghost rd_data) or an error; s3mem PutObject stores a body equal byte-for-byte to those bytes, hash = md5.Sum(body) and etag = quote(hex(hash)), metadata = the map passed in; toObject/GetObject hand back a bytes.Reader over the stored body (or the requested sub-range of it: contents clause over the reader's source slice), Size = len(body), Hash and Metadata those of the stored version; createObject passes to PutObject the request's bucket/key, a hashingReader over the request body (directly or through the chunk decoder) and the declared size; metadataHeaders keeps exactly the documented headers; CopyObject reads the source key and writes the destination key; getObject/headObject serve the object read for (bucket, key, version); response headers are observed through ghosts of the writer's header map: writeGetOrHeadObjectResponse sets ETag to quote(hex(obj.Hash)) and x-amz-version-id to the object's version, writeHeader/headObject/getObject set Content-Length, createObject sets ETag.",
+   note="Header values other than ETag and the version id are only known to be set, not what they are (fmt.Sprintf is uninterpreted); the metadata-header loop of writeGetOrHeadObjectResponse is covered for safety only. Not modelled: md5 and hex themselves (uninterpreted but the same symbol on both sides), the browser-form POST path beyond safety, BSON/JSON encodings. Bolt and afero backends are outside the verified set, so 'on every bundled backend' is not decided. A heap array sliced and then written through its own name is not tracked through the slice (DESIGN.md 12.2).",
    technique=T, design="7 (C01), 12"),
  "C13": dict(category="proof",
    text="bucketObject.Iterator and bucketObjectIterator.Seek/Next/Value/Close are verified against the skiplist model (no call on a nil iterator: D11 fixed; Next yields a non-nil version, the current version last; a failed Seek ends the iteration); s3mem ListBucketVersions is verified for panic-freedom, len(Versions) <= MaxKeys when MaxKeys > 0, the store being unchanged, lock balance, and the clause taken from the statement that a truncated response carries next markers — which fails on the unchanged tree and is recorded as known finding D10.",
